@@ -131,6 +131,16 @@ static void reply(int s, const char *fmt, long a, long b, long c, long d)
 
 static void free_run(int s, const char *spec);
 
+// descriptor table + signal state of the calling process as text (for the child side of a
+// fork-mode start, which never execs this helper)
+char *vchild_snapshot_text(void)
+{
+  sbuf b = { 0 };
+  snapshot_fds(&b);
+  snapshot_sig(&b);
+  return b.p ? b.p : strdup("");
+}
+
 int vchild_run(const char *sockpath, const char *flags, const char *tag,
                const char *snap, int argc, char **argv)
 {
